@@ -6,13 +6,15 @@ PROP = {
   "saml2_tophat.ident:IdentDB.remove_local",
   "saml2_tophat.ident:IdentDB.find_local_id",
   "saml2_tophat.ident:IdentDB.remove_remote",
-  "saml2_tophat.ident:IdentDB.handle_manage_name_id_request"
+  "saml2_tophat.ident:IdentDB.handle_manage_name_id_request",
+  "saml2_tophat.ident:IdentDB.create_id",
+  "saml2_tophat.ident:IdentDB.get_nameid"
  ],
  "bounded": [
   "ident_history"
  ],
  "level": "other",
- "explanation": "Deductive part: ident.code produces exactly the documented encoding (for each field with a value \"<index>=<quote(value)>\" joined by \",\"; quote is E-URL); IdentDB.store adds the reverse entry text -> user and appends the code to the user's list without touching any other key; IdentDB.remove_local terminates without NameError (fixed), forgets the user and only removes keys; find_local_id is the reverse lookup. decode, the split/join based lookups (find_nameid, match_local_id, remove_remote), issuing (create_id freshness, E-RAND) and the mapping / manage-name-id handlers are NOT verified deductively: BOUNDED native grid for decode(code(n)) == n and collision freedom, and exhaustive operation histories against a reference map, labelled bounded.",
+ "explanation": "Deductive part: ident.code produces exactly the documented encoding (for each field with a value \"<index>=<quote(value)>\" joined by \",\"; quote is E-URL); IdentDB.store adds the reverse entry text -> user and appends the code to the user's list without touching any other key; IdentDB.remove_local terminates without NameError (fixed), forgets the user and only removes keys; find_local_id is the reverse lookup. decode, the split/join based lookups (find_nameid, match_local_id, remove_remote), persistent / transient wrappers around get_nameid and the mapping / manage-name-id handlers are NOT verified deductively: BOUNDED native grid for decode(code(n)) == n and collision freedom, and exhaustive operation histories against a reference map, labelled bounded. Issuing is under contract: create_id returns a text that is not a key of the database (the retry loop's invariant; termination not verified), get_nameid issues a fresh identifier with the requested qualifiers that resolves to exactly its user and touches nobody else's entries (E-RAND: local user names are not outputs of the generator).",
  "assumptions": [
   "E-URL",
   "E-RAND",
